@@ -130,6 +130,7 @@ class Ctx:
             gen, dist = int(m.group(1)), int(m.group(2))
         violated = re.findall(r'Invariant (\w+) is violated', out)
         violated += re.findall(r'Action property (\w+) is violated', out)
+        violated += re.findall(r'The invariant of (\w+) is equal to FALSE', out)
         if 'Temporal properties were violated' in out:
             violated.append('TemporalProperty')
         if re.search(r'Deadlock reached', out):
@@ -154,6 +155,8 @@ class Ctx:
         out = p.stdout + p.stderr
         shutil.rmtree(metadir, True)
         gen, dist, violated, ok = self._parse_tlc(out)
+        if gen is None and violated:
+            gen = dist = 0                       # refuted while evaluating a constant-level invariant
         if gen is None or (not ok and not violated):
             raise MachineryError(f'TLC failed on {cfg}:\n{out[-3000:]}')
         self.states += dist
@@ -232,6 +235,10 @@ class Ctx:
             for c, n in res.get('cnt', {}).items():
                 self.clause_counts[c] = self.clause_counts.get(c, 0) + n
             for b in res['bad']:
+                if b['clause'].startswith('Drift_'):        # model drift is evidence, never a verdict
+                    d = self.notes.setdefault('model_drift', {})
+                    d[b['clause']] = d.get(b['clause'], 0) + 1
+                    continue
                 sc = scenarios[b['sid'] - 1]
                 tags = dict(sc.get('tags', {}))
                 ev = sc['events'][b['pos'] - 1]
